@@ -1,4 +1,5 @@
 import Proofs.Lemmas.SSZCanonical
+import Zrnt.Gen.SszFacts
 /-!
 # C04 — SSZ encoding round-trips, agrees with declared lengths, and malformed input is refused
 
@@ -70,6 +71,43 @@ theorem encode_injective (t : Ty) (v w : Val) (hl : t.Legal) (hv : WF t v) (hw :
   rw [h] at h1
   rw [h1] at h2
   exact Option.some.inj h2
+
+/-! ## The Go types against the specification schema (facts regenerated from /repo on every run) -/
+
+open Zrnt.Schema Zrnt.Schema.Facts Zrnt.Gen.SszFacts in
+/-- **Every Go SSZ type agrees with the specification schema** (`Zrnt.Schema.Facts.checkType`), for all
+configurations (lengths and limits are compared as polynomials over the configuration constants):
+* the struct declaration has the schema's fields in the schema's order, each field's Go type is (an alias of)
+  the schema's field type, and `json` tag = `yaml` tag = the specification's field name;
+* `Deserialize`, `Serialize`, `ByteLength`, `FixedLength` and `HashTreeRoot` each list exactly the struct's
+  fields in declaration order (`dr/w.Container`, `FixedLenContainer` only for fixed-size containers,
+  `codec.ContainerLength`, `hFn.HashTreeRoot`), or report the schema's fixed length;
+* list/vector/bitfield wrappers decode with the schema's limit and element size and merkleize with the
+  schema's limit and the packing that fits the element type;
+* the tree-view type definition (`XType`) denotes the schema.
+Bodies outside the recognised shapes are `opaque` (`Zrnt.Gen.SszFacts.opaqueMethods`, counted in the evidence):
+they are not covered by this theorem, only by the differential run. A row that stops checking is a failing
+`row_ok_<pkg>_<Type>` obligation and `checkType` evaluates to the offending method. -/
+theorem ssz_methods_agree : ∀ T ∈ types, checkType owners views T = none := by
+  intro T h
+  have := List.all_eq_true.mp all_rows_ok T h
+  simpa [Option.isNone_iff_eq_none] using this
+
+open Zrnt.Schema Zrnt.Schema.Facts Zrnt.Gen.SszFacts in
+/-- **The Go SSZ types are exactly the schema's entries**: every Go type with the SSZ method set has a
+specification entry of its name (specification containers plus the list/alias helpers listed in
+`Zrnt.Schema.Spec*`), every entry is implemented by a Go type, and no name occurs twice — a new or
+forgotten type is an error, not a gap. -/
+theorem ssz_types_complete :
+    (∀ n ∈ typeNames, (Spec.lookup n).isSome = true) ∧ (∀ e ∈ Spec.table, e.1 ∈ typeNames) ∧ typeNames.Nodup := by
+  refine ⟨?_, ?_, ?_⟩
+  · have h : typeNames.all (fun n => (Spec.lookup n).isSome) = true := by decide +kernel
+    exact fun n hn => List.all_eq_true.mp h n hn
+  · have h : Spec.table.all (fun e => typeNames.contains e.1) = true := by decide +kernel
+    intro e he
+    have := List.all_eq_true.mp h e he
+    simpa using this
+  · decide +kernel
 
 /-! ## Non-vacuity: the hypotheses are satisfiable, and the refusals are real -/
 
